@@ -643,7 +643,7 @@ func (b *Broker) Handle(l *Link, m message.Message) {
 	case *message.DownstreamMetadataAck:
 		for _, d := range b.Downs {
 			for _, mm := range d.Metas {
-				if mm.ReqID == uint32(t.RequestID) && mm.Link == l.ID {
+				if mm.ReqID == uint32(t.RequestID) { // (an item delivered before an outage may be acknowledged on the next connection)
 					d.MetaAcks = append(d.MetaAcks, uint32(t.RequestID))
 					return
 				}
